@@ -109,3 +109,62 @@ def cubic_unit_tangent_where_the_first_two_derivatives_vanish(c, end):
     u = c.callm(seg, 'unit_tangent', end)
     c.ensures('modulus-1', ops.eq(ops.norm2(u), 1))
     c.ensures('points-in-the-direction-of-travel', ops.eq(u * ops.absv(d), d))
+
+
+# ----------------------------------------------------------------------------- arcs
+# For an Arc in ANY stored parameter state (positive radii, delta != 0): the reference derivative
+# is d/dt of the executed point(t) (differentiated through the trig atoms), not Arc.derivative.
+
+def _arc_regular(c):
+    from contracts.c04 import arc_state
+    arc, p = arc_state(c)
+    t = c.real('t')
+    c.assume(ops.ne(p['delta'], 0))
+    z = c.callm(arc, 'point', t)
+    d = c.ddt(z, t)
+    dd = c.ddt(d, t)
+    return arc, p, t, d, dd
+
+
+@contract('C15', 'path.Arc.unit_tangent', params=[{'_no_bounded': True}], budget=120)
+def arc_unit_tangent_and_normal(c):
+    arc, p, t, d, dd = _arc_regular(c)
+    nz = c.step('an-arc-is-regular:d/dt-point(t)!=0', ops.ne(d, 0))
+    st = {}
+
+    def cut_dseg(v):
+        # the derivative the method divides by is the t-derivative of point(t); continue with
+        # an abstract non-zero complex number D that stands for it
+        c.step('cut:derivative(t)==d/dt-point(t)', ops.eq(v, d))
+        D = c.cplx('D')
+        st['def'] = c.assumed(ops.eq(D, d))
+        st['nz'] = c.step('cut:D!=0', ops.ne(D, 0), using=[st['def'], nz])
+        st['D'] = D
+        return D
+    c.cut_at('path.Arc.unit_tangent', 'dseg', cut_dseg)
+    u = c.callm(arc, 'unit_tangent', t)
+    D = st['D']
+    w = ops.absv(D)
+    wf = c.witness_facts(w)
+    m1 = c.step('modulus-1', ops.eq(ops.norm2(u), 1), using=wf + [st['nz']])
+    c.ensures('unit_tangent*|D|==D-where-D==d/dt-point(t)', ops.eq(u * w, D), using=wf + [st['nz']])
+    c.ensures('normal==-i*unit_tangent', ops.eq(c.callm(arc, 'normal', t), ops.cx(0, -1) * u))
+
+
+@contract('C15', 'path.Arc.curvature', params=[{'_no_bounded': True}], budget=120)
+def arc_curvature(c):
+    arc, p, t, d, dd = _arc_regular(c)
+    k = c.callm(arc, 'curvature', t)
+    speed = ops.absv(d)
+    c.ensures('curvature*|z\'|^3==|x\'y\'\'-y\'x\'\'|', ops.eq(k * speed * speed * speed, ops.absv(ops.cross(d, dd))))
+    c.ensures('curvature>=0', ops.le(0, k))
+
+
+@contract('C15', 'path.Arc.curvature', params=[{'_no_bounded': True}], budget=120)
+def circular_arc_curvature_is_one_over_r(c):
+    from contracts.c04 import arc_state
+    arc, p = arc_state(c)
+    t = c.real('t')
+    c.assume(ops.And(ops.ne(p['delta'], 0), ops.eq(p['rx'], p['ry'])))
+    k = c.callm(arc, 'curvature', t)
+    c.ensures('curvature*r==1', ops.eq(k * p['rx'], 1))
